@@ -569,6 +569,12 @@ func runC10(w *World, r *Report) {
 
 	// ---- designation
 	r.Rule("C10.designation", "graph-level handlers = options without path; node handlers = options whose path has exactly one element equal to the node key", 2)
+	designationChecks(w, r, "C10.designation")
+}
+
+// designationChecks: shared by C10 (handlers fire for the right node) and C16 (callbacks designated to a node apply only
+// there — and all of them do).
+func designationChecks(w *World, r *Report, rule string) {
 	optPaths := w.Field("compose", "Option", "paths")
 	optHandler := w.Field("compose", "Option", "handler")
 	npPath := w.Field("compose", "NodePath", "path")
@@ -596,7 +602,7 @@ func runC10(w *World, r *Report) {
 				return ok && isLenPaths(x) && isConstN(y, 0) && ((op == token.EQL && g.pol) || (op == token.NEQ && !g.pol))
 			})
 		}
-		r.Check(good, "C10.designation", "initGraphCallbacks takes only undesignated handlers", f.Pos(), "append guarded by len(opt.paths) == 0", "graph-level callbacks include node-designated handlers (or none)")
+		r.Check(good, rule, "initGraphCallbacks takes only undesignated handlers", f.Pos(), "append guarded by len(opt.paths) == 0", "graph-level callbacks include node-designated handlers (or none)")
 	}
 	{
 		f := w.Fn("compose", "initNodeCallbacks")
@@ -664,7 +670,7 @@ func runC10(w *World, r *Report) {
 				}
 			}
 		}
-		r.Check(good, "C10.designation", "initNodeCallbacks takes handlers designated to exactly this node", f.Pos(), "append guarded by len(path)==1 && path[0]==key; all designated paths are scanned", "node callbacks are not exactly the options one of whose paths is [key] (guard changed, or the scan over the paths stops before a match)")
+		r.Check(good, rule, "initNodeCallbacks takes handlers designated to exactly this node", f.Pos(), "append guarded by len(path)==1 && path[0]==key; all designated paths are scanned", "node callbacks are not exactly the options one of whose paths is [key] (guard changed, or the scan over the paths stops before a match)")
 	}
 }
 
